@@ -41,13 +41,21 @@ def showMark : Mark → String
   | .created => "C" | .started => "S" | .cmdSet => "U" | .completed => "D"
   | .failed => "F" | .cancelled => "X" | .forced => "O"
 
+/-- Canonical form shared with the harness: states up to the first conclusive one; `??` when states follow it. -/
+def cutMarks : List (Mark × Bool) → List (Mark × Bool) × Bool
+  | [] => ([], false)
+  | m :: rest => if m.1.conclusive then ([m], !rest.isEmpty) else
+      let (l, b) := cutMarks rest
+      (m :: l, b)
+
 def showTrack (t : Track) : String :=
   let fl := flag t.nCancelled "c" ++ flag t.nForced "f" ++ flag t.nCompleted "d" ++ flag t.nFailed "x"
-  let item := if t.marks.isEmpty then "none" else
+  let (marks, more) := cutMarks t.marks
+  let item := if more then "??" else if t.marks.isEmpty then "none" else
     match t.item with
     | none => "!!"
     | some (c, f) => (if c then "C" else "-") ++ (if f then "F" else "-")
-  s!"{t.id}:{String.join (t.marks.map (fun p => showMark p.1))}:{if fl.isEmpty then "-" else fl}:{item}"
+  s!"{t.id}:{String.join (marks.map (fun p => showMark p.1))}:{if fl.isEmpty then "-" else fl}:{item}"
 
 def showTracks (l : List Track) : String := join ";" (l.map showTrack)
 
